@@ -858,6 +858,12 @@ where
                 "Configuration changed"
             );
 
+            if self.config.max_packet_size != config.max_packet_size {
+                // `send_message` expects the capacity of the reusable
+                // buffer to match the configured packet size
+                self.send_buf = Vec::with_capacity(config.max_packet_size.get());
+            }
+
             self.config = config;
             Ok(())
         }
